@@ -715,3 +715,87 @@ func ruleEnumGen(c *Ctx, r *Report) {
 	okm := len(entries) == 3 && entries["1"] == `"RED"` && entries["2"] == `"BLUE"` && entries["7"] == `"GREEN"`
 	r.Check(okm, "enum[template]:name-map", c.Pos(ts["enumMap"].Pos), "ΛEnum has one entry per YANG value under the same number as its constant, none for 0", "the enum map template does not give each YANG value one entry under its constant's number")
 }
+
+// ruleDefaultSource: R-DEFAULT-SOURCE (C33).
+func ruleDefaultSource(c *Ctx, r *Report) {
+	r.Rule("R-DEFAULT-SOURCE", "the generator reads a leaf's default through goyang's Entry.DefaultValues()/SingleDefaultValue() (the leaf's own default, else its typedef chain's), never from the raw Entry.Default field; the names handed to PopulateDefaults for child containers and lists are the struct's own (uniquified) field names", 5)
+	n := 0
+	for _, rel := range genPkgs {
+		for _, f := range c.AllFuncs(rel) {
+			info := f.Info()
+			ast.Inspect(f.Decl.Body, func(x ast.Node) bool {
+				switch e := x.(type) {
+				case *ast.SelectorExpr:
+					if e.Sel.Name != "Default" {
+						return true
+					}
+					tv, ok := info.Types[e.X]
+					if !ok || namedTypeOf(tv.Type) != yangEntry {
+						return true
+					}
+					if _, isField := info.ObjectOf(e.Sel).(*types.Var); !isField {
+						return true
+					}
+					n++
+					r.Bad(fmt.Sprintf("%s:Entry.Default#%d", f.Name, n), c.Pos(e.Pos()), f.Name+" reads the raw Default field of a schema entry: the default a leaf inherits from its typedef (which Entry.DefaultValues() returns) is lost, so PopulateDefaults never sets it")
+				case *ast.CallExpr:
+					fn := FullName(Callee(info, e))
+					if fn == yangEntry+".DefaultValues" || fn == yangEntry+".SingleDefaultValue" {
+						n++
+						r.OK(fmt.Sprintf("%s:%s#%d", f.Name, strings.TrimPrefix(fn, yangEntry+"."), n), c.Pos(e.Pos()), "default read through goyang's accessor")
+					}
+				}
+				return true
+			})
+		}
+	}
+	if g := c.MustFunc(r, "gogen", "generateGoDefaultValue"); g != nil {
+		gi := g.Info()
+		ok := false
+		for _, call := range CallsIn(gi, g.Decl.Body, yangEntry+".DefaultValues") {
+			if sel, isSel := call.Fun.(*ast.SelectorExpr); isSel && paramIndex(g, ObjOf(gi, sel.X)) == 0 {
+				ok = true
+			}
+		}
+		r.Check(ok, "gogen.generateGoDefaultValue:uses-DefaultValues", c.Pos(g.Decl.Pos()), "field.DefaultValues()", "generateGoDefaultValue no longer takes the leaf's defaults from field.DefaultValues()")
+	}
+	// names handed to the PopulateDefaults template are the field's own Go name.
+	if g := c.MustFunc(r, "gogen", "writeGoStruct"); g != nil {
+		gi := g.Info()
+		k := 0
+		ast.Inspect(g.Decl.Body, func(x ast.Node) bool {
+			as, ok := x.(*ast.AssignStmt)
+			if !ok || len(as.Lhs) != 1 || len(as.Rhs) != 1 {
+				return true
+			}
+			l := types.ExprString(as.Lhs[0])
+			if !strings.HasPrefix(l, "associatedDefaultMethod.Child") {
+				return true
+			}
+			call, ok := as.Rhs[0].(*ast.CallExpr)
+			if !ok || len(call.Args) != 2 {
+				return true
+			}
+			k++
+			arg := ObjOf(gi, call.Args[1])
+			// the Go field name variable: the one used as Name: in the goStructField literal of this arm.
+			arm := c.enclosingCase(g, as)
+			var nameObj types.Object
+			if arm != nil {
+				ast.Inspect(arm, func(m ast.Node) bool {
+					if cl, ok := m.(*ast.CompositeLit); ok && namedTypeOf(gi.Types[cl].Type) == P("gogen")+".goStructField" {
+						for _, el := range cl.Elts {
+							if kv, ok := el.(*ast.KeyValueExpr); ok && types.ExprString(kv.Key) == "Name" && nameObj == nil {
+								nameObj = ObjOf(gi, kv.Value)
+							}
+						}
+					}
+					return true
+				})
+			}
+			r.Check(arg != nil && arg == nameObj, fmt.Sprintf("gogen.writeGoStruct:%s#%d", strings.TrimPrefix(l, "associatedDefaultMethod."), k), c.Pos(as.Pos()), "the struct field's own Go name",
+				"writeGoStruct hands PopulateDefaults a child name that is not the struct field's (uniquified) Go name: when two children camel-case alike, one is populated twice and the other never")
+			return true
+		})
+	}
+}
